@@ -1747,6 +1747,35 @@ def witness_search(case, diff, seed=0, tries=600, exact=False, pred=None):
                     break
             if npair > 30000:
                 break
+    # products next to a power of two: x drawn from the upper part of its range, y = floor((2^m - 1) / x) (and y + 1) - the
+    # carry out of a doubled or accumulated partial product fires only when x*y sits just below 2^31, 2^32, 2^63 or 2^64,
+    # a set far too thin for the random candidates and without a power-of-two point of its own
+    if 2 <= len(free) <= 10:
+        base = {x: case.box[x][0] for x in free}
+        nprod = 0
+        for x in free:
+            lx, hx = case.box[x]
+            if hx < 4:
+                continue
+            xs = [hx, hx - 1] + [rnd.randint(max(lx, hx // 2), hx) for _ in range(10)]
+            for y in free:
+                if y == x:
+                    continue
+                ly, hy = case.box[y]
+                for m in (31, 32, 63, 64):
+                    for vx in xs:
+                        if vx <= 0:
+                            continue
+                        q = ((1 << m) - 1) // vx
+                        for vy in (q, q + 1, q - 1):
+                            if ly <= vy <= hy:
+                                a = dict(base)
+                                a[x] = vx
+                                a[y] = vy
+                                cands.append(a)
+                                nprod += 1
+            if nprod > 20000:
+                break
     for a in cands:
         try:
             a = complete(dict(a))
